@@ -77,6 +77,11 @@ structure Obs where
   justSeen : List String := []
   /-- (sender, round, phase) slots occupied in the pre-start queue -/
   preSlots : List (Pid × Nat × Nat) := []
+  /-- consecutive-instance runs: the instance this (virtual) node stands for -/
+  inst : Nat := 0
+  /-- messages queued for this instance before its proposal was known (kind `Q`): recorded as delivered votes
+  once the input — hence the late-binding base check — is known -/
+  pendingQ : List Msg := []
 
 structure St where
   tbl : Table := { entries := [] }
@@ -85,6 +90,9 @@ structure St where
   obs : List (Pid × Obs) := []
   mode : String := ""
   runNo : Nat := 0
+  /-- consecutive instances of the run and the delay between a decision and the start of the next instance -/
+  K : Nat := 1
+  gap : Int := 0
   /-- (gst, delta) are read from the `end` line -/
   pendingUndecided : List (Pid × Nat × Nat) := []
 
@@ -174,6 +182,16 @@ def effEq (seen : List String) (a b : String) : Bool :=
      | some j => seen.contains j
      | none => false))
 
+/-- a delivered (tallied) vote enters the independent observation state -/
+def Obs.recordVote (o : Obs) (mg : Msg) : Obs :=
+  let phN := mg.phase.toNat
+  let already := o.votes.any (fun e => e.1 == phN && e.2.1 == mg.round && e.2.2.1 == mg.sender)
+  { o with
+    votes := if already then o.votes else o.votes ++ [(phN, mg.round, mg.sender, mg.value)]
+    justVals := match mg.just with | some j => if o.justVals.contains j.value then o.justVals else o.justVals ++ [j.value] | none => o.justVals
+    conv := if phN == 2 && !(o.conv.any (fun e => e.1 == mg.round && e.2.1 == mg.value && e.2.2 ≤ mg.rank)) && !already
+            then o.conv ++ [(mg.round, mg.value, mg.rank)] else o.conv }
+
 /-- all permutations (small lists only) -/
 def perms : List Pid → List (List Pid)
   | [] => [[]]
@@ -192,6 +210,39 @@ def mapOrderVariants (s : State) : List State :=
       else some (s.setRound s.round { rs with committed := { rs.committed with support := sp :: (sup.take i ++ sup.drop (i + 1)) } })
     | none => none)
 
+def parseMsg? (detail : String) : Option (Msg × Nat) :=
+  match detail.splitOn "," with
+  | sd :: r :: ph :: c :: rk :: j :: sp :: rest => do
+    let sd ← sd.toNat?; let r ← r.toNat?; let ph ← (← ph.toNat?) |> phaseOfNat?
+    let c ← parseChain? c; let rk ← rk.toNat?; let j ← parseJust? j; let sp ← sp.toNat?
+    let inst := (rest.head?.bind (·.toNat?)).getD 0
+    some ({ sender := sd, round := r, phase := ph, value := c, rank := rk, just := j, suppOk := sp == 1 }, inst)
+  | _ => none
+
+/-- kind `Q`: `ReceiveMessage` for an instance the participant has not reached yet — `messageQueue.Add` for that
+instance, nothing observable. The virtual node of that instance may not exist yet (its proposal is unknown). -/
+def processQueued (st : St) (vid : Pid) (now : Int) (detail effsS retS : String) : St × Verdict :=
+  match parseMsg? detail with
+  | none => (st, .bad "cannot parse queued op")
+  | some (mg, inst) =>
+    let m : PState := (lookup st.models vid).getD { inst := init st.cfg st.tbl [] }
+    let o : Obs := (lookup st.obs vid).getD { inst := inst }
+    let (m', effs) := pstep m (.recv now mg)
+    let slot := (mg.sender, mg.round, mg.phase.toNat)
+    let o' := if o.preSlots.contains slot then o
+      else { o with preSlots := o.preSlots ++ [slot], pendingQ := o.pendingQ ++ [mg] }
+    let st' := { st with models := update st.models vid m', obs := update st.obs vid o' }
+    if m.started then (st', .diff s!"node={vid} a message was queued for an instance that has already begun")
+    else if effsS != "-" || !effs.isEmpty then (st', .diff s!"node={vid} queueing a message for a later instance had effects: {effsS}")
+    else if retS != "ok" then (st', .diff s!"node={vid} queueing a message for a later instance returned {retS}")
+    else (st', .ok "recv_future_queued")
+
+/-- kind `P`: `ReceiveMessage` for an instance the participant has finished — dropped, nothing observable -/
+def processPast (st : St) (vid : Pid) (effsS retS : String) : St × Verdict :=
+  if effsS != "-" then (st, .diff s!"node={vid} a message of a finished instance had effects: {effsS}")
+  else if retS != "ok" then (st, .diff s!"node={vid} a message of a finished instance returned {retS}")
+  else (st, .ok "recv_past_dropped")
+
 def processOp (st : St) (pid : Pid) (kind : String) (now : Int) (detail effsS progS retS : String) : St × Verdict :=
   match lookup st.models pid, lookup st.obs pid with
   | some m, some o =>
@@ -201,7 +252,7 @@ def processOp (st : St) (pid : Pid) (kind : String) (now : Int) (detail effsS pr
       | "A" => some (.alarm now, none)
       | "M" =>
         match detail.splitOn "," with
-        | [sd, r, ph, c, rk, j, sp] => do
+        | sd :: r :: ph :: c :: rk :: j :: sp :: _ => do
           let sd ← sd.toNat?; let r ← r.toNat?; let ph ← (← ph.toNat?) |> phaseOfNat?
           let c ← parseChain? c; let rk ← rk.toNat?; let j ← parseJust? j; let sp ← sp.toNat?
           let msg : Msg := { sender := sd, round := r, phase := ph, value := c, rank := rk, just := j, suppOk := sp == 1 }
@@ -215,11 +266,13 @@ def processOp (st : St) (pid : Pid) (kind : String) (now : Int) (detail effsS pr
         | some mg => (match mg.just with | some j => justStr (some j) :: o.justSeen | none => o.justSeen)
         | none => o.justSeen
       let implToks0 := if effsS = "-" then [] else splitWs effsS
+      -- the host answers a decision with the start time of the next instance (an input of the participant)
+      let nextAlarm : Int := if o.inst + 1 < st.K then now + st.gap else nextStartAlarm
       let tokensOf := fun (m' : PState) (effs : List Eff) =>
         effs.filterMap effStr ++
           (if m.inst.termination.isNone then
             match m'.inst.termination with
-            | some d => ["D," ++ justStr (some d), s!"A,{nextStartAlarm}"]
+            | some d => ["D," ++ justStr (some d), s!"A,{nextAlarm}"]
             | none => []
           else [])
       let agrees := fun (r : PState × List Eff) =>
@@ -247,7 +300,7 @@ def processOp (st : St) (pid : Pid) (kind : String) (now : Int) (detail effsS pr
       let decTok : List String :=
         if m.inst.termination.isNone then
           match m'.inst.termination with
-          | some d => ["D," ++ justStr (some d), s!"A,{nextStartAlarm}"]
+          | some d => ["D," ++ justStr (some d), s!"A,{nextAlarm}"]
           | none => []
         else []
       let modelToks := effs.filterMap effStr ++ decTok
@@ -259,18 +312,12 @@ def processOp (st : St) (pid : Pid) (kind : String) (now : Int) (detail effsS pr
       let o1 : Obs := match msg? with
         | some mg =>
           let phN := mg.phase.toNat
-          let already := o.votes.any (fun e => e.1 == phN && e.2.1 == mg.round && e.2.2.1 == mg.sender)
           let lateRejected := retS.startsWith "late:" || !mg.suppOk ||
             !(mg.value.isEmpty || mg.value.head? == o.input.head?)
           -- before the instance begins the participant queues one message per (sender, round, phase)
           let preDup := !o.started && o.preSlots.contains (mg.sender, mg.round, phN)
           let o := if o.started then o else { o with preSlots := o.preSlots ++ [(mg.sender, mg.round, phN)] }
-          if lateRejected || preDup then o else
-          { o with
-            votes := if already then o.votes else o.votes ++ [(phN, mg.round, mg.sender, mg.value)]
-            justVals := match mg.just with | some j => if o.justVals.contains j.value then o.justVals else o.justVals ++ [j.value] | none => o.justVals
-            conv := if phN == 2 && !(o.conv.any (fun e => e.1 == mg.round && e.2.1 == mg.value && e.2.2 ≤ mg.rank)) && !already
-                    then o.conv ++ [(mg.round, mg.value, mg.rank)] else o.conv }
+          if lateRejected || preDup then o else o.recordVote mg
         | none => { o with started := true }
       -- walk the implementation's effects
       let walk := implToks.foldl (fun (acc : Obs × List String × Option Int) tok =>
@@ -312,7 +359,7 @@ def processOp (st : St) (pid : Pid) (kind : String) (now : Int) (detail effsS pr
         else
           -- correspondence
           let modelProg : Nat × Nat × Nat :=
-            if m'.inst.termination.isSome then (1, 0, 0) else (0, m'.inst.round, m'.inst.phase.toNat)
+            if m'.inst.termination.isSome then (o.inst + 1, 0, 0) else (o.inst, m'.inst.round, m'.inst.phase.toNat)
           let toksOk := modelToks.length == implToks.length && (modelToks.zip implToks).all (fun (a, b) => effEq seenJ a b)
           if !toksOk then (st', .diff s!"node={pid} effects: model=[{" ".intercalate modelToks}]")
           else if modelRet != implRet then (st', .diff s!"node={pid} ret: model={modelRet} impl={implRet}")
@@ -325,8 +372,8 @@ def processOp (st : St) (pid : Pid) (kind : String) (now : Int) (detail effsS pr
   | _, _ => (st, .bad s!"unknown node {pid}")
 
 /-- cross-node oracles at the end of a run -/
-def endRun (st : St) (gst delta : Int) (now : Int) (capped : Bool) (gstRound decRound : Int) : Verdict :=
-  let honest := st.obs.filter (fun e => !e.2.faulty)
+def endRunOne (st : St) (gst delta : Int) (now : Int) (capped : Bool) (gstRound decRound : Int)
+    (honest : List (Pid × Obs)) : Verdict :=
   let decs := honest.filterMap (fun e => e.2.decided.map (fun d => (e.1, d)))
   -- C01 agreement
   let agree := match decs with
@@ -364,11 +411,27 @@ def endRun (st : St) (gst delta : Int) (now : Int) (capped : Bool) (gstRound dec
         else if live && capped then .ok s!"run_{st.mode}_capped"
         else .ok (s!"run_{st.mode}_" ++ (if decs.isEmpty then "nodecision" else if decs.length == honest.length then "alldecided" else "somedecided"))
 
+/-- the cross-node oracles, instance by instance (consecutive-instance runs have one virtual node per
+participant and instance) -/
+def endRun (st : St) (gst delta : Int) (now : Int) (capped : Bool) (gstRound decRound : Int) : Verdict :=
+  let honest := st.obs.filter (fun e => !e.2.faulty)
+  if st.K ≤ 1 then endRunOne st gst delta now capped gstRound decRound honest
+  else
+    let vs := (List.range st.K).map (fun k => endRunOne st gst delta now capped gstRound decRound (honest.filter (·.2.inst == k)))
+    match vs.find? (fun v => match v with | .oracle _ => true | _ => false) with
+    | some v => v
+    | none =>
+      let decided := (honest.filter (·.2.decided.isSome)).length
+      if !capped && decided < honest.length then
+        .oracle s!"C06-undecided-in-lossless-consecutive-instances run={st.runNo} decided={decided}/{honest.length} K={st.K}"
+      else .ok s!"run_multi_K{st.K}"
+
 def step (st : St) (line : String) : St × Verdict :=
   let toks := splitWs line
   match toks with
   | "run" :: n :: rest =>
-    ({ tbl := { entries := [] }, cfg := default, models := [], obs := [], mode := (getKV rest "mode").getD "", runNo := n.toNat?.getD 0 }, .skip)
+    ({ tbl := { entries := [] }, cfg := default, models := [], obs := [], mode := (getKV rest "mode").getD "", runNo := n.toNat?.getD 0,
+       K := ((getKV rest "K").bind (·.toNat?)).getD 1, gap := ((getKV rest "gap").bind (·.toInt?)).getD 0 }, .skip)
   | ["tbl", t] =>
     match (t.splitOn ",").mapM (fun e => match e.splitOn ":" with
         | [a, b] => do some ((← a.toNat?), (← b.toNat?))
@@ -384,9 +447,19 @@ def step (st : St) (line : String) : St × Verdict :=
   | "node" :: id :: rest =>
     match id.toNat?, (getKV rest "input").bind parseChain?, (getKV rest "faulty").bind (·.toNat?), (getKV rest "power").bind (·.toNat?) with
     | some id, some inp, some f, some pw =>
-      let o : Obs := { input := inp, power := pw, faulty := f == 1 }
+      let inst := ((getKV rest "inst").bind (·.toNat?)).getD 0
+      -- messages queued for this instance before it began (kind `Q`) are delivered votes from now on, unless the
+      -- late-binding checks (supplemental data, base) will drop them at the drain
+      let old : Obs := (lookup st.obs id).getD {}
+      let o0 : Obs := { input := inp, power := pw, faulty := f == 1, inst := inst, preSlots := old.preSlots }
+      let o : Obs := old.pendingQ.foldl (fun (acc : Obs) mg =>
+        if !mg.suppOk || !(mg.value.isEmpty || mg.value.head? == inp.head?) then acc else acc.recordVote mg) o0
       if f == 1 then ({ st with obs := update st.obs id o }, .skip)
-      else ({ st with models := update st.models id { inst := init st.cfg st.tbl inp }, obs := update st.obs id o }, .skip)
+      else
+        let m : PState := match lookup st.models id with
+          | some q => { q with inst := init st.cfg st.tbl inp }
+          | none => { inst := init st.cfg st.tbl inp }
+        ({ st with models := update st.models id m, obs := update st.obs id o }, .skip)
     | _, _, _, _ => (st, .bad "node")
   | "o" :: id :: kind :: now :: _ =>
     match id.toNat?, now.toInt? with
@@ -395,13 +468,16 @@ def step (st : St) (line : String) : St × Verdict :=
       | [head, effs, prog, ret] =>
         let headToks := splitWs head
         let detail := (headToks.drop 4).headD ""
-        processOp st id kind now detail effs.trimAscii.toString prog.trimAscii.toString ret.trimAscii.toString
+        if kind == "Q" then processQueued st id now detail effs.trimAscii.toString ret.trimAscii.toString
+        else if kind == "P" then processPast st id effs.trimAscii.toString ret.trimAscii.toString
+        else processOp st id kind now detail effs.trimAscii.toString prog.trimAscii.toString ret.trimAscii.toString
       | _ => (st, .bad "op fields")
     | _, _ => (st, .bad "op header")
   | "dec" :: id :: j :: rest =>
     -- decision as reported through the host: instance and supplemental data
-    match (getKV rest "inst"), (getKV rest "supp") with
-    | some "0", some "1" => (st, .ok "dec")
+    let want := ((id.toNat?.bind (lookup st.obs)).map (·.inst)).getD 0
+    match (getKV rest "inst").bind (·.toNat?), (getKV rest "supp") with
+    | some k, some "1" => if k == want then (st, .ok "dec") else (st, .oracle s!"C03-decision-wrong-instance-or-supplement node={id} {j}")
     | _, _ => (st, .oracle s!"C03-decision-wrong-instance-or-supplement node={id} {j}")
   | "cert" :: id :: agg :: res :: _ =>
     if agg != "agg=true" then (st, .oracle s!"C03-decision-aggregate-does-not-verify node={id}")
